@@ -154,8 +154,8 @@ def sizes_part(acc, args, check, extra=None, skip=None):
 def forms_for(fmt):
     from hypothesis import strategies as st
     if fmt == 'zinc':
-        return st.sampled_from(['text', 'text', 'bytes:utf-8'])
-    return st.sampled_from(['text', 'obj', 'bytes:utf-8', 'bytes:utf-16', 'bytes:utf-32'])
+        return st.sampled_from(['text', 'text', 'bytes:utf-8', 'bytes:utf-16', 'bytes:latin-1'])
+    return st.sampled_from(['text', 'obj', 'bytes:utf-8', 'bytes:utf-16', 'bytes:utf-32', 'bytes:latin-1', 'bytes:cp1252'])
 
 
 def replay(stage, case, fmt=FMT):
